@@ -628,7 +628,7 @@ func c15Phase(c *Ctx) {
 	}
 	var typ, want ssa.Value
 	for _, p := range f.Params {
-		if p.Name() == "want" {
+		if pname(p) == "want" {
 			want = p
 		}
 	}
